@@ -273,3 +273,187 @@ def corpus_table(tier, seed):
         nd = rnd.randint(0, 3)
         A(n, tuple(sorted(rnd.sample(range(n + nd), nd))), k0=rnd.randint(0, 7))
     return out
+
+
+# ---------------------------------------------------------------------------------------
+# EnumString family: C01 / C11 / C12 / C18 (and the field-less subset for C16)
+
+def V(ident, kind='unit', tys=None, ser=(), ts=None, aci=None, bare=False, disabled=False, default=False, dw=None, fdw=None, names=None):
+    tys = list(tys or [])
+    if kind == 'tuple':
+        fields = [Field(t) for t in tys]
+    elif kind == 'named':
+        names = names or ['f%d' % i for i in range(len(tys))]
+        fields = [Field(t, name=n, default_with=(fdw or {}).get(n)) for t, n in zip(tys, names)]
+    else:
+        fields = []
+    return Variant(ident, kind, fields, serialize=list(ser), to_string=ts, aci=aci, aci_bare=bare, disabled=disabled,
+                   default=default, default_with=dw)
+
+def parse_prog(namer, variants, stem='Ps', derives=('EnumString',), generic=None, **enum_opts):
+    p = Program(namer.next(stem), variants, derives=list(derives))
+    p.std_derives = ['Debug', 'PartialEq']
+    for k, v in enum_opts.items():
+        setattr(p, k, v)
+    uses_t = any(f.ty == 'T' for v in variants for f in v.fields)
+    uses_lt = any("'a" in f.ty for v in variants for f in v.fields)
+    gd, gu = [], []
+    if uses_lt:
+        gd.append("'a"); gu.append("'a")
+    if uses_t:
+        gd.append('T: Default'); gu.append('T'); p.type_params = ['T']
+    if gd:
+        p.generics_decl = '<' + ', '.join(gd) + '>'
+        p.generics_use = '<' + ', '.join(gu) + '>'
+    return p
+
+STEMS = ['alpha', 'bravo', 'charlie', 'delta', 'echo', 'foxtrot', 'golf', 'hotel', 'india', 'juliet']
+
+def corpus_parse(tier, seed, focus='C01'):
+    nm = Namer()
+    out = []
+    def A(vs, **kw):
+        p = parse_prog(nm, vs, **kw)
+        out.append(p)
+        return p
+    # 1 plain identifiers
+    A([V('Red'), V('Green'), V('Blue')])
+    # 2 serialize_all over multi-word identifiers
+    A([V('RedFox'), V('BlueSky2'), V('HTTPServer'), V('X')], serialize_all='snake_case')
+    # 3 every naming mix; explicit spellings are never re-cased
+    A([V('Red', ser=['r', 'rouge']), V('Blue', ts='BLEU'), V('Green', ser=['g'], ts='verde'), V('YellowSun')], serialize_all='SCREAMING_SNAKE_CASE')
+    # 4 enum-level case-insensitivity with one variant opting out; payload defaults; generic payload; default variant
+    A([V('Red', ser=['r', 'rouge']), V('Gone', disabled=True), V('BlueSky', 'tuple', ['u8'], aci=False, dw='dw_u8'),
+       V('Green', 'named', ['u8', 'T'], names=['a', 'b'], fdw={'a': 'dw_u8'}), V('Other', 'tuple', ['Cap'], default=True)],
+      aci=True, serialize_all='snake_case')
+    # 5 variant-level flags only (bare and = true); case-sensitive near-misses of each other
+    A([V('Red', ser=['Red']), V('Red2', ser=['red']), V('Blue', aci=True, bare=True), V('Green', ts='GrEeN', aci=True), V('Teal', aci=False)])
+    # 6 disabled first / middle / last, with explicit spellings that must not parse
+    A([V('GoneA', disabled=True, ser=['gone']), V('Red'), V('GoneB', 'tuple', ['u8'], disabled=True), V('Blue', 'tuple', ['i32', 'bool']), V('GoneC', disabled=True, ts='Bye')])
+    # 7 default variant in named form, after and before other variants
+    A([V('Other', 'named', ['Cap'], names=['inner'], default=True), V('Red', ser=['red', 'RED']), V('Blue', aci=True)])
+    # 8 default_with on tuple and named fields; Tag payload (Default = Tag(7)), lifetime + type parameter
+    A([V('One', 'tuple', ['Tag']), V('Two', 'tuple', ['Tag'], dw='dw_tag'), V('Three', 'named', ['i32', 'Tag', 'T'], names=['x', 'y', 'z'], fdw={'x': 'dw_i32'}),
+       V('Four', 'tuple', ["&'a str", 'usize'])], serialize_all='kebab-case')
+    # 9 custom parse error with case-insensitive and case-sensitive variants
+    A([V('Red', ts='RED'), V('Blue', aci=True, bare=True), V('Green', 'tuple', ['u8']), V('Gone', disabled=True)], parse_err_ty='PErr', parse_err_fn='perr')
+    # 10 non-ASCII, empty, caseless, all-lower / all-upper spellings; Kelvin / long-s look-alikes are *inputs*, the spellings are ASCII
+    A([V('Gruen', ser=['gr\u00fcn'], aci=True), V('Ete', ser=['\u00c9T\u00c9']), V('K', ser=['k'], aci=True), V('Empty', ser=['']), V('Num', ser=['4711', '-'], aci=True),
+       V('Lower', ser=['lower'], aci=True), V('Upper', ser=['UPPER'], aci=True), V('Ss', ser=['ss', 'si'], aci=True)])
+    # 11 nothing enabled: every input is rejected
+    A([V('GoneA', disabled=True), V('GoneB', 'tuple', ['u8'], disabled=True)])
+    # 12 only a default variant + custom error attributes (error type falls back to the std one only via default)
+    A([V('Any', 'tuple', ['Cap'], default=True), V('Gone', disabled=True)], aci=True)
+    if tier == 'quick':
+        return out
+    styles = [None, 'snake_case', 'SCREAMING_SNAKE_CASE', 'kebab-case', 'camelCase', 'PascalCase', 'lowercase', 'UPPERCASE', 'title_case', 'mixed_case', 'Train-Case', 'SCREAMING-KEBAB-CASE']
+    rnd = random.Random(seed * 7919 + 17)
+    idents = ['RedFox', 'BlueSky', 'Green', 'DarkGray2', 'HTTPPort', 'Yellow', 'X', 'Orange_Peel', 'teal', 'NASARocket']
+    n_prog = 110
+    for k in range(n_prog):
+        nv = 1 + k % 6
+        vs = []
+        ids = idents[k % 3:] + idents[:k % 3]
+        has_default = (k % 5 == 1)
+        custom = (k % 4 == 2) and not has_default
+        enum_aci = (k % 3 == 0)
+        for i in range(nv):
+            stem = STEMS[(i + k) % len(STEMS)]
+            mode = (k // 2 + i) % 6      # none, ser1, ser2, ser3, to_string, both
+            forms = [stem, stem.upper(), stem.title(), stem + '-x', '\u00e9' + stem, stem[:3] + '7']
+            rnd.shuffle(forms)
+            ser, ts = [], None
+            if mode == 1: ser = forms[:1]
+            elif mode == 2: ser = forms[:2]
+            elif mode == 3: ser = forms[:3]
+            elif mode == 4: ts = forms[0]
+            elif mode == 5: ser, ts = forms[:2], forms[2]
+            aci = [None, True, False, None, True, None][(k + 2 * i) % 6]
+            kind = ['unit', 'tuple', 'named'][(k + i) % 3]
+            tys = {'unit': [], 'tuple': [TYPES[(k + i) % 5]] , 'named': [TYPES[(k + i + 1) % 5], TYPES[(k + i + 3) % 5]]}[kind]
+            v = V(ids[i], kind, tys, ser=ser, ts=ts, aci=aci, bare=bool(aci) and (k % 2 == 0), disabled=((k + i) % 7 == 3))
+            if kind == 'tuple' and tys == ['u8'] and k % 2:
+                v.default_with = 'dw_u8'
+            vs.append(v)
+        if has_default:
+            pos = k % (nv + 1)
+            vs.insert(pos, V('Fallback', 'tuple', ['Cap'], default=True) if k % 2 else V('Fallback', 'named', ['Cap'], names=['raw'], default=True))
+        kw = dict(serialize_all=styles[k % len(styles)], aci=enum_aci)
+        if custom:
+            kw.update(parse_err_ty='PErr', parse_err_fn='perr')
+        A(vs, **kw)
+    return out
+
+
+# ---------------------------------------------------------------------------------------
+# printers: C03 / C17 / C11(forward) / C02 / C08(VariantNames)
+
+PRINTERS = ('Display', 'AsRefStr', 'IntoStaticStr', 'VariantNames')
+
+def corpus_print(tier, seed, derives=PRINTERS, with_forward=True, with_prefix=True, extra_derives=()):
+    nm = Namer()
+    out = []
+    der = tuple(derives) + tuple(extra_derives)
+    def A(vs, derives=der, inner=None, **kw):
+        p = parse_prog(nm, vs, stem='Pr', derives=derives, **kw)
+        if inner is not None:
+            p.inner = inner
+        out.append(p)
+        return p
+    A([V('Red'), V('GreenLeaf'), V('Blue2')])
+    A([V('A', ser=['b', 'blue', 'bl']), V('B', ser=['longest', 's']), V('C', ser=['a', 'bb', 'ccc']), V('D', ser=['dd', 'd'], ts='dee'), V('E', ts='E!')])
+    A([V('RedFox', 'tuple', ['u8']), V('BlueSky', 'named', ['i32', 'bool']), V('HTTPPort'), V('X', ser=['explicit-Stays'])], serialize_all='kebab-case',
+      **({'prefix': 'p/'} if with_prefix else {}))
+    if with_prefix:
+        A([V('Red'), V('Blue', ts='bleu')], prefix='\u00e9-', serialize_all='UPPERCASE')
+        A([V('Red'), V('Blue', ser=['b'])], prefix='')
+    A([V('GoneA', disabled=True), V('Red'), V('GoneB', 'tuple', ['u8'], disabled=True, ser=['gone']), V('Blue', 'tuple', ['Tag', 'T']), V('GoneC', disabled=True)],
+      const_into_str=True, serialize_all='SCREAMING_SNAKE_CASE')
+    if with_forward:
+        A([V('Red'), V('Other', 'tuple', ['Cap'], default=True), V('Named', ts='named!')], derives=tuple(x for x in der if x != 'IntoStaticStr'))
+        A([V('Red'), V('Other', 'named', ['Cap'], names=['raw'], default=True, ts='fixed-other')], derives=('Display',) + tuple(extra_derives))
+        A([V('Wrap', 'tuple', ['Cap'], ), V('WrapN', 'named', ['Cap'], names=['inner']), V('Plain')], derives=('Display', 'AsRefStr'))
+        out[-1].variants[0].transparent = True
+        out[-1].variants[1].transparent = True
+        # nested derived enum inside a transparent variant, every printer
+        k = nm.k
+        inner = Program('P%03dPrIn' % k, [V('InA'), V('InB', ts='in-b'), V('InC', 'tuple', ['u8'])], derives=['Display', 'AsRefStr', 'IntoStaticStr'])
+        inner.std_derives = ['Debug', 'PartialEq']
+        inner.serialize_all = 'snake_case'
+        p = A([V('Tr', 'tuple', [inner.name]), V('Plain'), V('TrN', 'named', [inner.name], names=['it'])], derives=('Display', 'AsRefStr', 'IntoStaticStr'), inner=inner)
+        p.variants[0].transparent = True
+        p.variants[2].transparent = True
+        A([V('S', 'tuple', ["&'static str"]), V('Plain')], derives=('Display',))
+        out[-1].variants[0].transparent = True
+    if tier == 'quick':
+        return out
+    styles = [None, 'snake_case', 'SCREAMING_SNAKE_CASE', 'kebab-case', 'camelCase', 'PascalCase', 'lowercase', 'UPPERCASE', 'title_case', 'mixed_case', 'Train-Case', 'SCREAMING-KEBAB-CASE',
+              'camel_case', 'kebab_case', 'snek_case', 'shouty_snake_case', 'shouty_snek_case']
+    idents = ['RedFox', 'BlueSky', 'Green', 'DarkGray2', 'HTTPPort', 'Yellow', 'X', 'Orange_Peel', 'teal', 'NASARocket']
+    rnd = random.Random(seed * 104729 + 5)
+    for k in range(60):
+        nv = 1 + k % 6
+        ids = idents[k % 4:] + idents[:k % 4]
+        vs = []
+        for i in range(nv):
+            stem = STEMS[(i + k) % len(STEMS)]
+            forms = [stem[:2], stem, stem.upper() + '-long', stem.title() + 'X', '\u00e9' + stem + stem]
+            forms = [f for j, f in enumerate(forms) if len(set(len(x.encode()) for x in forms[:j + 1])) == j + 1]
+            rnd.shuffle(forms)
+            mode = (k // 3 + i) % 6
+            ser, ts = [], None
+            if mode == 1: ser = forms[:1]
+            elif mode == 2: ser = forms[:2]
+            elif mode == 3: ser = forms[:3]
+            elif mode == 4: ts = forms[0]
+            elif mode == 5: ser, ts = forms[:2], forms[2]
+            kind = ['unit', 'tuple', 'named'][(k + i) % 3]
+            tys = {'unit': [], 'tuple': [TYPES[(k + i) % 5]], 'named': [TYPES[(k + i + 1) % 5], TYPES[(k + i + 3) % 5]]}[kind]
+            vs.append(V(ids[i], kind, tys, ser=ser, ts=ts, disabled=((k + i) % 8 == 5)))
+        kw = dict(serialize_all=styles[k % len(styles)])
+        if with_prefix and k % 4 == 1:
+            kw['prefix'] = ['pre.', '', '\u00fc_', 'NS::'][(k // 4) % 4]
+        if k % 5 == 2:
+            kw['const_into_str'] = True
+        A(vs, **kw)
+    return out
